@@ -75,6 +75,15 @@ def cases(tier, seed):
     for n in (1, 2, 3):
         out.append({"key": f"reject/nonsquare/{n}x{n + 1}", "grp": "rej", "sub": "nonsquare", "n": n})
         out.append({"key": f"reject/nonherm/{n}", "grp": "rej", "sub": "nonherm", "n": n})
+    # every way of being non-Hermitian by ONE defect: a non-real diagonal entry (each position x each imaginary component), or one
+    # off-diagonal pair violating a_ji = conj(a_ij) in exactly one of the four components
+    for n in (1, 2, 3, 4):
+        for pos in range(n):
+            for comp in (1, 2, 3):
+                out.append({"key": f"reject/diag/n={n}/pos={pos}/c={comp}", "grp": "rej", "sub": "diag", "n": n, "pos": pos, "comp": comp})
+        for (i, j) in itertools.combinations(range(n), 2):
+            for comp in (0, 1, 2, 3):
+                out.append({"key": f"reject/offdiag/n={n}/{i}{j}/c={comp}", "grp": "rej", "sub": "offdiag", "n": n, "i": i, "j": j, "comp": comp})
     return out
 
 
@@ -196,6 +205,15 @@ def run_case(case, seed):
         fill = G.Fill(seed, stream=hash_tag(case["key"]))
         if case["sub"] == "nonsquare":
             A = fill.quat(n, n + 1)
+        elif case["sub"] in ("diag", "offdiag"):
+            A = fill.quat(n, n, bits=2, lo=-8, hi=8)
+            A = 0.5 * (A + O.qH(A))
+            for t in range(n):
+                A[t, t, 1:] = 0.0
+            if case["sub"] == "diag":
+                A[case["pos"], case["pos"], case["comp"]] = 0.75
+            else:
+                A[case["j"], case["i"], case["comp"]] += 0.75  # only one triangle changed, only one component
         else:
             A = G.herm_with_spectrum(O.qeye(n), [1.0] * n)
             A[0, n - 1, 1] += 1.0  # O(1) non-Hermitian perturbation at O(1) scale
@@ -204,8 +222,8 @@ def run_case(case, seed):
         Aq = G.to_quat(A)
         before = Aq.tobytes()
         for nm, f in (("eig", lib.eigen.quaternion_eigendecomposition), ("tridiagonalize", lib.tridiag.tridiagonalize)):
-            if nm == "tridiagonalize" and case["sub"] == "nonherm" and n < 2:
-                continue
+            if nm == "tridiagonalize" and case["sub"] in ("nonherm", "diag") and n < 2:
+                continue  # tridiagonalize documents n >= 2 for its check; eigendecomposition must reject the 1x1 case
             ok, r = call(f, Aq)
             if ok:
                 fails.append(fail("out_of_domain_accepted", f"{nm} returned for {case['sub']} input", fn=nm, sub=case["sub"]))
